@@ -113,6 +113,16 @@ impl CachedBlocks {
     }
   }
 
+  /// Forget every cached block, in all regions
+  pub fn clear(&mut self) {
+    self.rom_low.cache.clear();
+    self.rom_high.cache.clear();
+    self.cart_ram.cache.clear();
+    self.wram_low.cache.clear();
+    self.wram_high.cache.clear();
+    self.high_ram.cache.clear();
+  }
+
   /// Select the ROM bank currently mapped at 0x4000-0x7fff. Blocks in that
   /// region are cached per bank, so lookups and inserts need to know which
   /// bank the addresses currently refer to.
